@@ -48,6 +48,14 @@ def texts_for(ctx):
         for lt in ('\n', '\r', '\r\n', '\u2028', '\u2029', ''):
             texts.append('a = 1; //%s%sb = 2;' % (body, lt) if lt else 'a = 1; //%s' % body)
         texts.append('/*%s*/ c = 3; /*%s\n%s*/ d;' % (body.replace('*/', '* /'), body.replace('*/', '*'), body.replace('*/', '')))
+    # every printable ASCII character and some two / three character openers at the very START of a text and after a line
+    # break (illegal characters, hashbang, HTML comment openers ...: error paths of the lexer tables differ in what they check)
+    for op in [chr(c) for c in range(0x21, 0x7f) if not chr(c).isalnum()] + ['#!', '#!/usr/bin/env node', '<!--', '-->', '@@', '\\u0061',
+                                                                             '\ufeff#!', '#! x\n#!']:
+        texts.append(op + ' var a = 1;')
+        texts.append(op + '\nb = 2;')
+        texts.append('c;\n' + op + ' d')
+        texts.append(op)
     # raw malformed stream
     for _ in range(ctx.n(20, 200)):
         texts.append(''.join(rng.choice('ab1 \n/*"\'\\{}();=+.[],é\u2028') for _ in range(rng.randint(1, 12))))
